@@ -30,7 +30,7 @@ Calibration (R5) - one correction of the oracle's model, no sub-claim dropped:
 """
 import os
 
-from .. import core, build, phr
+from .. import core, build, phr, drv
 from ..oracles import raw
 
 PROP = "C02"
@@ -431,8 +431,16 @@ def run_history(s, init, mode, ops, judge_from=None):
 
 
 def run_case(case):
-    s = phr.Session(DBNAME)          # driver reset + new instance + database: the command log (= replay artefact) is this case only
-    res = run_history(s, case["init"], case["mode"], case["ops"], case.get("judge_from"))
+    try:
+        s = phr.Session(DBNAME)      # driver reset + new instance + database: the command log (= replay artefact) is this case only
+        res = run_history(s, case["init"], case["mode"], case["ops"], case.get("judge_from"))
+    except (drv.DrvDied, drv.DrvTimeout) as e:
+        # a crash / hang of the library is not a run that "completes without error": outside this statement (C08's
+        # subject), counted as not completed and shown in the evidence with the driver's command log
+        d = core.get_drv("rel")
+        log = getattr(d, "dead_log", None) or []
+        return {"case": case, "problems": [], "ops": 1, "diagnostics": [], "not_completed": True, "outcome": "not-completed", "driver_death": True,
+                "err": "DRIVER DIED: %s %s | last commands: %s" % (type(e).__name__, str(e)[:100], " ; ".join(l[:160] for l in log[-2:]))}
     out = {"case": case, "problems": [], "ops": res["nrun"], "diagnostics": res["diags"][:3]}
     if res["problems"]:
         out["script"] = s.d.script()          # the replay artefact; only kept for candidates (memory of the explorer)
@@ -475,6 +483,9 @@ def explore_level(cases, ev, findings, pool, deadline, stats):
             stats["not_completed"] += 1
             if len(stats["nc_samples"]) < 4:
                 stats["nc_samples"].append({"case": res["case"], "error": res["err"]})
+            if res.get("driver_death"):
+                stats["deaths"] += 1
+                ev.diag("driver death (library crash or hang), counted as not completed: %s %s" % (res["case"], res["err"][:600]))
         else:
             stats["completed"] += 1
             ev.state(res["key"])
@@ -494,9 +505,14 @@ def explore_level(cases, ev, findings, pool, deadline, stats):
             ev.diag(d)
         for fp, what in res["problems"]:
             cand.setdefault(fp, (res["case"], what, res.get("script", "")))
-    for fp in sorted(cand):
+    for fp in cand:                                    # first occurrence = simplest case first
         if fp in stats["reported"]:
             continue                                   # already reported from a shallower (simpler) level
+        if findings.match(fp) is None and len(findings.violations) >= MAX_NEW:
+            # one dropped term shows up under many element sets / neighbour reactants; the run already exits 1
+            stats["unreplayed"] += 1
+            ev.diag("further candidate fingerprint, not replayed (more than %d new violations already reported): %s" % (MAX_NEW, fp))
+            continue
         case, what, script = cand[fp]
         ok = list(pool.map(core._confirm, [(run_case, case, fp)]))[0]
         if ok:
@@ -507,6 +523,7 @@ def explore_level(cases, ev, findings, pool, deadline, stats):
     return complete, results
 
 
+MAX_NEW = 6         # new (not known) fingerprints replayed and reported per run; further ones are listed as diagnostics
 SPLIT = 2500        # a level with more histories than this is cut into one sub-bound per first op (deadline granularity)
 
 
@@ -556,6 +573,7 @@ def run(tier):
         "dump convention: SOLUTION_RAW -totals are moles per valence state 'El(v)'; -cb is the charge of the aqueous species in eq",
         "dump convention: a surface with -charge_component objects carries its net charge (surface + diffuse layer) in their -charge_balance; a -no_edl surface in its components' -charge_balance",
         "manual: REACTION amounts are cumulative unless INCREMENTAL_REACTIONS true; the last amount is re-used when KINETICS defines more steps than REACTION",
+        "manual: '<amount> in k steps' adds the amount once over k steps, as cumulative fractions (default) or as k increments (INCREMENTAL_REACTIONS true)",
         "charge tolerance: 1e-6 x max(|net charge|, sum of the inventories of all elements other than H and O) (the statement gives no scale for charge)",
         "a step is judged from the two dumps only; intermediate reaction steps of one simulation are not observable in the dump and are not judged",
         "manual eq. 76: a surface with a constant-thickness diffuse layer carries W_s = thickness x specific area x mass x 1000 kg of water from its definition on; "
@@ -564,17 +582,18 @@ def run(tier):
         "dump convention: SURFACE_RAW -dl_type 0 = no explicit diffuse layer; -new_def 1 = read but not yet used in a calculation; -thickness in m, -specific_area in m2/g, -grams in g",
     ]
     pool = core.Pool()
-    stats = {"completed": 0, "not_completed": 0, "worst": 0.0, "cells": {}, "nc_samples": [], "diag": 0, "reported": set(), "dl_first_step": 0}
+    stats = {"completed": 0, "not_completed": 0, "worst": 0.0, "cells": {}, "nc_samples": [], "diag": 0, "reported": set(), "dl_first_step": 0, "deaths": 0, "unreplayed": 0}
     allops = alphabet()
     if tier == "quick":
         dl = core.Deadline(150)
         plan = [("full alphabet", "plain", m, allops, 2) for m in ("use", "cells")] + \
                [("full alphabet", "full", m, allops, 2) for m in ("use", "cells")]
     else:
-        dl = core.Deadline(1500)
-        plan = [("full alphabet", "plain", m, allops, 3) for m in ("use", "cells")] + \
-               [("full alphabet", "full", m, allops, 2) for m in ("use", "cells")] + \
-               [("attach ops", "plain", m, alphabet("attach"), 4) for m in ("use", "cells")]
+        dl = core.Deadline(840)
+        # cheapest first, so that a deadline cut costs the tail of the biggest bound only
+        plan = [("full alphabet", "full", m, allops, 2) for m in ("use", "cells")] + \
+               [("attach ops", "plain", m, alphabet("attach"), 4) for m in ("use", "cells")] + \
+               [("full alphabet", "plain", m, allops, 3) for m in ("use", "cells")]
     for name, init, mode, ops, depth in plan:
         bfs(name, init, mode, ops, depth, ev, findings, pool, dl, stats)
     pool.close()
@@ -587,11 +606,15 @@ def run(tier):
     ev.extra["worst_relative_residual_of_conserved_transitions"] = stats["worst"]
     ev.extra["judged_transitions_by_cell_composition"] = dict(sorted(stats["cells"].items()))
     ev.extra["sys_crosscheck_diagnostics"] = stats["diag"]
+    ev.extra["driver_deaths_counted_as_not_completed"] = stats["deaths"]
+    ev.extra["candidate_fingerprints_not_replayed"] = stats["unreplayed"]
     ev.extra["first_steps_of_a_never_reacted_constant_thickness_diffuse_layer_surface"] = stats["dl_first_step"]
     if total and stats["completed"] < 0.5 * total:
-        raise SystemExit("C02: only %d of %d histories completed - the check is broken" % (stats["completed"], total))
+        print("HARNESS ERROR C02: only %d of %d histories completed - the check is broken" % (stats["completed"], total))
+        raise SystemExit(2)
     if total > 50 and len(ev.outcomes) < 20:
-        raise SystemExit("C02: %d histories but only %d distinct states - the check is vacuous" % (total, len(ev.outcomes)))
+        print("HARNESS ERROR C02: %d histories but only %d distinct states - the check is vacuous" % (total, len(ev.outcomes)))
+        raise SystemExit(2)
     return core.finish(ev, findings)
 
 
